@@ -12,12 +12,19 @@ import (
 
 // RaceRun is the native confirmation run (never executed symbolically): the given requests are decided
 // from 8 goroutines against the one shared set of registries, under the race detector; responses of
-// requests of kind 0 are compared with the sequential outcome.
+// requests of kind 0 are compared with the sequential outcome. With sequential == nil the concurrent phase
+// is the first use of the registries in the process (lazily filled shared state - a cache populated on
+// first use - is then raced on, not found already filled) and the sequential outcome is computed afterwards.
 func RaceRun(build func(kind int) *model.DecisionMaker, kinds int, sequential *Outcome) {
 	var wg sync.WaitGroup
 	var mu sync.Mutex
 	same := true
 	const per = 40
+	type result struct {
+		choice   *model.DecisionMakerChoice
+		panicked bool
+	}
+	var first []result
 	reqs := make([]*model.DecisionMaker, 8*per)
 	for i := range reqs {
 		reqs[i] = build(i % kinds)
@@ -42,6 +49,12 @@ func RaceRun(build func(kind int) *model.DecisionMaker, kinds int, sequential *O
 				if idx%kinds != 0 {
 					continue
 				}
+				if sequential == nil {
+					mu.Lock()
+					first = append(first, result{choice, panicked})
+					mu.Unlock()
+					continue
+				}
 				ok := panicked == sequential.Panicked
 				if ok && !panicked {
 					ok = rt.DeepEqual(choice, sequential.Choice)
@@ -55,5 +68,13 @@ func RaceRun(build func(kind int) *model.DecisionMaker, kinds int, sequential *O
 		}(g)
 	}
 	wg.Wait()
+	if sequential == nil {
+		seq := Decide(build(0))
+		for _, r := range first {
+			if r.panicked != seq.Panicked || (!r.panicked && !rt.DeepEqual(r.choice, seq.Choice)) {
+				same = false
+			}
+		}
+	}
 	rt.Assert("concurrent-equals-sequential", same)
 }
